@@ -133,8 +133,14 @@ Definition dec_tables {A} (dec : gval -> res A) (v : gval) : res (wtables A) :=
   | _ => Err EOther
   end.
 
+(** an int member: encoding/json refuses a number with a fraction or outside Go's int (64 bits) *)
+Definition int64_ok (z : Z) : bool := (-9223372036854775808 <=? z)%Z && (z <? 9223372036854775808)%Z.
 Definition f_int (o : option gval) : res Z :=
-  match o with None | Some GNull => Ok 0%Z | Some (GNum n 1) => Ok n | _ => Err EOther end.
+  match o with
+  | None | Some GNull => Ok 0%Z
+  | Some (GNum n 1) => if int64_ok n then Ok n else Err EOther
+  | _ => Err EOther
+  end.
 (** a struct member with its own UnmarshalJSON: called for null too *)
 Definition f_uuid (o : option gval) : res sym :=
   match o with
@@ -207,7 +213,7 @@ Definition wf_ru2 (r : wru2) : bool :=
 Definition wf_elem {A} (wf : A -> bool) (o : option A) : bool := match o with Some a => wf a | None => true end.
 Definition wf_tables {A} (wf : A -> bool) (t : wtables A) : bool :=
   forallb (fun tu => forallb (fun ru => wf_elem wf ru.2) tu.2) t.
-Definition wf_result (r : wresult) : bool := forallb wf_row (rs_rows r).
+Definition wf_result (r : wresult) : bool := int64_ok (rs_count r) && forallb wf_row (rs_rows r).
 Definition wf_monreq (m : wmonreq) : bool := forallb (wf_triple is_function) (mr_where m).
 Definition wf_since (s : wsince) : bool := wf_tables wf_ru2 (sn_updates s).
 
